@@ -28,6 +28,12 @@ def gen(tier, rnd):
         senders = [[tag(i, k) for k in range(rnd.randint(1, per))] for i in range(ns)]
         mode = rnd.choice(["complete", "complete", "quit-midway", "kill-midway"])
         slow = rnd.choice([None, "update-sleep", "update-yield", "view-sleep", "cmds"])
+        # the loop held inside one Update for 150 ms / 2.6 s while senders are blocked in Send: a Send that gives up, or
+        # completes behind the loop's back, after some time-out shows here (complete mode: every message must arrive)
+        if c % 12 == 5:
+            slow, mode = "hold-150ms", "complete"
+        if c in (7, 31) or (tier != "quick" and c % 100 == 7):
+            slow, mode = "hold-2600ms", "complete"
         cases.append({"senders": senders, "mode": mode, "slow": slow, "gomaxprocs": rnd.choice([0, 0, 1, 2, 4, 16]),
                       "filter": rnd.random() < 0.3, "slow_init": rnd.random() < 0.3,
                       # the terminal is released (Exec) while senders are active, with an input that cannot be cancelled
@@ -47,6 +53,9 @@ def scenarios(cases):
             sc["update_default"] = {"sleep_us": 300}
         elif c["slow"] == "update-yield":
             sc["update_default"] = {"yield": 3}
+        elif c["slow"] in ("hold-150ms", "hold-2600ms"):
+            first = c["senders"][0][0]
+            sc["update"] = {"u:%d" % first: {"sleep_us": 150000 if c["slow"] == "hold-150ms" else 2600000}}
         elif c["slow"] == "cmds":
             # every Update returns a command whose result is another message (more traffic, from command goroutines)
             sc["update_default"] = {"cmd": P.cmd(5, ret=P.U(7))}
@@ -62,7 +71,7 @@ def scenarios(cases):
         else:
             script += [P.DO("start-senders"), P.DO("sleep", us=400), P.DO("kill"), P.W("returned")]
         inp = {"kind": "reader", "end": "hold"} if c.get("exec") else None
-        s = P.scenario(i, script, opts=o, inp=inp, senders=[[P.U(t) for t in l] for l in c["senders"]], watchdog_ms=5000, **sc)
+        s = P.scenario(i, script, opts=o, inp=inp, senders=[[P.U(t) for t in l] for l in c["senders"]], watchdog_ms=9000 if c["slow"] == "hold-2600ms" else 5000, **sc)
         if c["gomaxprocs"]:
             s["gomaxprocs"] = c["gomaxprocs"]
         else:
@@ -105,8 +114,53 @@ def analyse(c, r):
     return probs, upd_tags
 
 
+PUBLIC = [P.B("windowsizemsg", w=80, h=24), P.B("windowsizemsg", w=0, h=0), P.B("windowsizemsg", w=120, h=40), P.B("focus"), P.B("blur"),
+          P.B("resume"), P.B("nil")]
+
+
+def public_family(res, tier, rnd):
+    """one sender, messages of the public built-in types (window sizes incl. repeats and 0x0, focus, blur, resume) mixed with
+    user messages: Update gets exactly what was sent, in order - a message the loop swallows or de-duplicates is lost"""
+    def key(m):
+        if "u" in m:
+            return "u:%d" % m["u"]
+        return {"windowsizemsg": "ws:%dx%d" % (m.get("w", 0), m.get("h", 0)), "focus": "b:focus", "blur": "b:blur", "resume": "b:resume"}.get(m["b"], "b:" + m["b"])
+    scs, sent = [], []
+    for i in range(12 if tier == "quick" else 200):
+        msgs = []
+        for k in range(rnd.randint(3, 14)):
+            r = rnd.random()
+            if r < 0.35:
+                msgs.append(P.U(3000 + k))
+            elif r < 0.55 and msgs:
+                msgs.append(dict(rnd.choice(msgs)))            # an exact repeat of an earlier message
+            else:
+                msgs.append(dict(rnd.choice(PUBLIC)))
+        if i % 3 == 0:
+            msgs.insert(0, P.B("windowsizemsg", w=0, h=0))
+        script = [P.W("started"), P.W("idle")] + [P.DO("send", msg=m) for m in msgs] + [P.W("idle"), P.DO("quit"), P.W("returned")]
+        scs.append(P.scenario(i, script, opts={"fps": 120}, parallel_ok=True, watchdog_ms=4000))
+        sent.append([key(m) for m in msgs if m.get("b") != "nil"])      # a nil message is dropped by the loop (documented)
+    results, _ = P.run_scenarios("C01_public", scs, timeout=900)
+    bad = []
+    for i, (want, r) in enumerate(zip(sent, results)):
+        if P.machinery_problem(r) or not r["run_returned"]:
+            bad.append((i, "scenario did not complete: %s" % P.summarize(r)))
+            continue
+        got = [e["key"] for e in r["events"] if e["ev"] == "UpdateBegin"]
+        if got != want:
+            bad.append((i, "sent %s; Update received %s" % (want, got)))
+    res.oblige("Spec on real runs: messages of the public built-in types (repeated and zero window sizes, focus, blur, resume) sent by the application reach Update exactly as sent (%d runs)" % len(scs),
+               not bad, [b[1] for b in bad[:2]])
+    for i, what in bad[:1]:
+        res.violation("C01:public-lost", what, {"scenario": scs[i]})
+    res.coverage["public_family"] = len(scs)
+    return not bad
+
+
 def run(res, tier, seed):
     rnd = random.Random(seed * 7919 + 1)
+    public_family(res, tier, random.Random(seed * 7919 + 11))
     have_props = os.path.exists(os.path.join(C.COQ, "theories", "Props", "C01.v"))
     proofs_ok, broken = C.proof_obligations(res, PROPS if have_props else [], extra_targets=["theories/Spec/ConcSpec.vo"])
     if not have_props:
@@ -163,14 +217,14 @@ def run(res, tier, seed):
         res.violation("C01:%s" % what, "user messages passed to Update are not exactly the completed sends, once each, in per-sender order (%s)" % what,
                       {"case": c, "updates": upd_tags, "scripts": c["senders"]})
         found = True
-    if not found and (not proofs_ok or not tie_ok):
+    if not found and not res.violations and (not proofs_ok or not tie_ok):
         res.violation("C01:obligation", "proof obligation or tie no longer checks (%s); the Spec held on all %d real logs" % (broken, len(cases)),
                       {"broken": broken, "searched": "%d runs" % len(cases)}, found_input=False)
     res.coverage["input_distribution"] = {
         "senders": {str(k): sum(1 for c in cases if len(c["senders"]) == k) for k in sorted({len(c["senders"]) for c in cases})},
         "messages_total": sum(len(x) for c in cases for x in c["senders"]),
         "modes": {m: sum(1 for c in cases if c["mode"] == m) for m in ("complete", "quit-midway", "kill-midway")},
-        "slow": {str(m): sum(1 for c in cases if c["slow"] == m) for m in (None, "update-sleep", "update-yield", "view-sleep", "cmds")},
+        "slow": {str(m): sum(1 for c in cases if c["slow"] == m) for m in (None, "update-sleep", "update-yield", "view-sleep", "cmds", "hold-150ms", "hold-2600ms")},
         "gomaxprocs": {str(g): sum(1 for c in cases if c["gomaxprocs"] == g) for g in (0, 1, 2, 4, 16)},
         "slow_init": sum(1 for c in cases if c.get("slow_init")), "with_exec_and_uncancellable_input": sum(1 for c in cases if c.get("exec")),
     }
